@@ -192,6 +192,10 @@ def cc_trees() -> list[dict]:
             root(cs, cs, call="single"), root(c(L, L, call="group"), cs)]
 
 
+def _has_cc(spec: dict) -> bool:
+    return spec.get("fl") == "c" or any(_has_cc(k) for k in spec.get("kids") or [])
+
+
 def expected_value(spec: dict) -> int:
     return 1 + sum(expected_value(k) for k in spec.get("kids") or [])
 
@@ -308,7 +312,9 @@ def run(ctx: Ctx) -> None:
                       if not ctx.thorough else None)
         core = [t for t in trees if core_names is None or _tree_name(t) in core_names]
         ds = [dict(backend=b, slots=s, spec=t, bound=1)
-              for b in ((env.MEM,) if not ctx.thorough else env.BACKENDS) for s in (1, 2) for t in core]
+              for b in ((env.MEM,) if not ctx.thorough else env.BACKENDS) for s in (1, 2) for t in core
+              # the (long) concurrency-controlled trees: memory only, and in thorough not the two largest
+              if t.get("fl") != "c" and not (_has_cc(t) and (b != env.MEM or size(t) > 7))]
         if only:
             ds = [d for d in ds if only in e1.desc_key(d) or only == "tree"]
         e1.explore_all(ctx, MOD, ds, lambda d: d["bound"], replay_every=200)
